@@ -36,6 +36,7 @@ class FileContracts:
         self.prologue = []
         self.contracted = []      # [(qualname, [clauses], kind)]
         self.assumed = []         # external_body etc: [(qualname, what)]
+        self.lemmas = []          # proof fns in the epilogue that are obligations: [(name, tags)]
 
     # ---- locating -------------------------------------------------------------------------
     def fn(self, name, within=None, nth=0):
@@ -57,7 +58,7 @@ class FileContracts:
         return '%s::%s%s' % (self.relpath, (within + '::') if within else '', f.name)
 
     # ---- operations -----------------------------------------------------------------------
-    def contract(self, name, within=None, nth=0, ret='r', requires=(), ensures=(), decreases=None, attrs=(), external_body=False, opens_invariants=None, note=''):
+    def contract(self, name, within=None, nth=0, ret='r', requires=(), ensures=(), decreases=None, attrs=(), external_body=False, tags=(), note=''):
         f = self.fn(name, within, nth)
         q = self._qual(f, within)
         # line indentation of the fn keyword
@@ -83,7 +84,8 @@ class FileContracts:
                 raise LostAnchor('%s: where-clause on contracted fn not supported' % q)
             # strip trailing spaces before '{' : we insert "\n<clauses><indent>" before it
             self.ed.insert(pos, '\n' + cl + indent, 'sig', q)
-        self.contracted.append((q, list(requires), list(ensures), 'external_body' if external_body else 'verified'))
+        self.contracted.append(dict(q=q, relpath=self.relpath, within=within, name=name, requires=list(requires), ensures=list(ensures),
+                                    kind='external_body' if external_body else 'verified', tags=list(tags), note=note))
         return f
 
     def replace_in(self, name, old, new, within=None, nth=0, occ=0, kind='closure', count=1):
@@ -217,3 +219,11 @@ def _body_prefix(self, name, text, within=None, nth=0):
 
 
 FileContracts.body_prefix = _body_prefix
+
+
+def _lemma(self, name, tags):
+    """register a proof fn of the epilogue as an obligation of the given properties"""
+    self.lemmas.append((name, list(tags)))
+
+
+FileContracts.lemma = _lemma
